@@ -55,11 +55,7 @@ func returnDesc(d *DPath) string {
 	if !isErrorType(r.Type()) {
 		return "return"
 	}
-	if ph, ok := r.(*ssa.Phi); ok {
-		if ch, ok := d.Env.Phi[ph]; ok {
-			r = ch
-		}
-	}
+	r = d.Env.Val(r) // through the path's phi choices and through helpers read as part of the function
 	if ld, ok := r.(*ssa.UnOp); ok && ld.Op == token.MUL {
 		switch a := ld.X.(type) {
 		case *ssa.Alloc:
